@@ -105,6 +105,7 @@ Definition pOp : P op :=
   | 9 => do f <- pN;; do c <- pN;; do cb <- pN;; do e <- pEaddr;; pret (AddRespCb e f c cb)
   | 10 => do f <- pN;; do cb <- pN;; do e <- pEaddr;; pret (AddResultCb e f cb)
   | 11 => do t <- pN;; pret (QFactory t)
+  | 15 => do f <- pN;; do c <- pN;; do cb <- pN;; do k <- pN;; do e <- pEaddr;; pret (ParRegister e f c cb k)
   | 14 => do e <- pEaddr;; pret (RemoveLocalEntity e)
   | 13 => do l <- pList (do p <- pN;; do d <- pSub pDgram;; pret (p, d));; pret (SeqArrive l)
   | 12 => do late <- pOptN;; do pf <- pN;; do ps <- pList pN;; do d <- pDgram;; pret (ParArrive ps d late pf)
